@@ -148,6 +148,16 @@ class ClassInfo:
         return f"<class {self.qualname}>"
 
 
+class _PlainAssign(ast.NodeTransformer):
+    """`x: T = v` is analysed as `x = v` (annotations carry no behaviour); a bare `x: T` as `pass`."""
+
+    def visit_AnnAssign(self, n):
+        self.generic_visit(n)
+        if n.value is None:
+            return ast.copy_location(ast.Pass(), n)
+        return ast.copy_location(ast.Assign(targets=[n.target], value=n.value, lineno=n.lineno), n)
+
+
 class Module:
     def __init__(self, path, relpath):
         self.path = path
@@ -157,7 +167,8 @@ class Module:
             raw = fh.read()
         self.sha256 = hashlib.sha256(raw).hexdigest()
         self.source = raw.decode("utf-8")
-        self.tree = ast.parse(self.source, filename=path)
+        self.tree = _PlainAssign().visit(ast.parse(self.source, filename=path))
+        ast.fix_missing_locations(self.tree)
         for parent in ast.walk(self.tree):
             for child in ast.iter_child_nodes(parent):
                 child._parent = parent  # type: ignore[attr-defined]
